@@ -541,11 +541,15 @@ class Table(tsdb.Relation):
             values[i] = Row(self.fields,
                             row,
                             field_index=self._field_index)
+        # if the assignment changes the table's length, later rows
+        # shift, so load any of them that are still only on disk
+        start, stop, step = index.indices(len(self._rows))
+        first = max(0, min(start, stop))
+        if (len(values) != len(range(start, stop, step))
+                and any(row is None for row in self._rows[first:])):
+            self._rows[first:] = self[first:]
         self._rows[index] = values
-        self._volatile_index = min(
-            self._volatile_index,
-            min(index.indices(len(self._rows))[:2])
-        )
+        self._volatile_index = min(self._volatile_index, first)
 
     def __len__(self) -> int:
         return len(self._rows)
